@@ -105,8 +105,8 @@ func runC18(c *runCtx) {
 		if h.Format == tar.FormatUSTAR && (len(name) > 100 || !isASCII(name) || !isASCII(h.Uname) || h.Uid > 0o7777777 || len(h.Linkname) > 100 || !isASCII(h.Linkname)) {
 			h.Format = tar.FormatPAX
 		}
-		if h.Format == tar.FormatGNU && (!isASCII(name) || !isASCII(h.Uname) || !isASCII(h.Linkname)) {
-			h.Format = tar.FormatPAX
+		if h.Format == tar.FormatGNU && (!isASCII(name) || !isASCII(h.Uname) || !isASCII(h.Linkname)) && i%2 == 0 {
+			h.Format = tar.FormatPAX // (every other time: the GNU format takes such names as they are)
 		}
 		if err := w.WriteHeader(h); err != nil {
 			c.stats.Kinds["writer-refused"]++
@@ -117,6 +117,26 @@ func runC18(c *runCtx) {
 		a := buf.Bytes()
 		archives = append(archives, a)
 		c.c18Case("writer", a)
+	}
+	// heavy headers: GNU-format members whose name and link target are long runs of non-ASCII bytes, so that the byte
+	// sum of the first block needs all six octal digits of the checksum field (0100000 and more)
+	for i := 0; i < 24; i++ {
+		var buf bytes.Buffer
+		w := tar.NewWriter(&buf)
+		fill := []string{"日本語ファイル名", "\xff", "\xfe\xfd", "é", "ÿþ"}[i%5]
+		long := strings.Repeat(fill, 100/len(fill))
+		h := &tar.Header{Name: long[:len(long)-i%7], Linkname: long[:len(long)-i%5], Typeflag: []byte{tar.TypeSymlink, tar.TypeLink}[i%2], Mode: 0o777, Format: tar.FormatGNU,
+			Uname: []string{"", "üser"}[i%2], Uid: []int{0, 1 << 30}[i/2%2], Gid: []int{0, 1 << 30}[i/4%2]}
+		if err := w.WriteHeader(h); err != nil {
+			c.stats.Kinds["writer-refused"]++
+			continue
+		}
+		w.Close()
+		a := append([]byte{}, buf.Bytes()...)
+		if len(a) >= 512 {
+			archives = append([][]byte{a}, archives...) // also first in line for the corruption sweep
+			c.c18Case("writer", a)
+		}
 	}
 	// extreme numeric fields: sizes of 8 GiB and more (GNU base-256 / PAX records), huge ids, old and far-future times,
 	// device numbers - headers only (the first block is all that is examined)
